@@ -280,6 +280,34 @@ def _completion_is_unconditional(tree: Tree, graph: dict, target: str) -> tuple[
     return target in must, blocked
 
 
+def check_alignment_options(ctx: Check, tree: Tree) -> None:
+    """R-ALIGNOPT: a spin alignment formulates the amplitude (which introduces the alignment-angle symbols) and
+    defines those symbols in two methods.  A configuration field of the alignment that `formulate_amplitude` reads
+    names the symbols it creates (the reference sub-system is part of every zeta symbol); if `define_symbols` does not
+    read the same field, the rule cannot tell whether the definitions cover the symbols for every value of the field:
+    ANALYSIS-ERROR (three-valued - a field that only changes a convention would be harmless)."""
+    n = 0
+    for q, cls in sorted(tree.classes.items()):
+        if not q.startswith("ampform.helicity.align"):
+            continue
+        fa, ds = cls.methods.get("formulate_amplitude"), cls.methods.get("define_symbols")
+        if fa is None or ds is None:
+            continue
+        n += 1
+
+        def fields_read(m: FuncInfo) -> set[str]:
+            return {x.attr for x in walk_function(m.node) if isinstance(x, ast.Attribute) and isinstance(x.value, ast.Name) and x.value.id == "self" and isinstance(x.ctx, ast.Load)
+                    and x.attr not in cls.methods}
+
+        only_amplitude = fields_read(fa) - fields_read(ds)
+        if only_amplitude:
+            raise AnalysisError(f"R-ALIGNOPT cannot decide: {q}.formulate_amplitude reads the configuration field(s) {sorted(only_amplitude)} that {q}.define_symbols does not read - "
+                                "whether the defined alignment angles are the ones the amplitude contains for every value of the field is not visible")
+        ctx.ok("R-ALIGNOPT", tree.loc(ds.node), f"{q}: define_symbols reads every configuration field that formulate_amplitude reads ({sorted(fields_read(fa)) or 'none'})")
+    if n < 3:
+        raise AnalysisError(f"R-ALIGNOPT: only {n} alignment classes with formulate_amplitude / define_symbols found (NoAlignment, AxisAngleAlignment, DalitzPlotDecomposition confirmed)")
+
+
 def check_domain(ctx: Check, tree: Tree) -> None:
     # local aliases of attribute paths (`amplitudes = self.__ingredients.amplitudes`) are looked through (H-ALIAS)
     table = unparse(_model_argument(tree, "amplitudes"))  # self.__ingredients.amplitudes
@@ -1894,6 +1922,7 @@ def check_same_topology(ctx: Check, tree: Tree) -> None:
 
 def run(ctx: Check, tree: Tree) -> None:
     ctx.decided += [
+        "R-ALIGNOPT (three-valued): define_symbols of a spin alignment reads every configuration field that its formulate_amplitude reads (otherwise undecided, never a pass)",
         'R-XSTORE (re-add): a family of mass symbols removed from the kinematic variables is not put back by a later store on a path that removed it',
         'R-KEYTYPE: lookups into the symbol-keyed parameter / kinematic-variable mappings never use a str key',
         "R-BACKSUB: alignment-angle definitions are back-substituted with the completed kinematic variables before they become kinematic variables (structural part of clause d)",
@@ -1912,6 +1941,7 @@ def run(ctx: Check, tree: Tree) -> None:
     ]
     ctx.assumptions += ["SymPy symbols with equal names and different assumptions are different objects", "HelicityAdapter.create_expressions defines every invariant-mass symbol of the registered topologies"]
     ctx.section(check_domain, ctx, tree)
+    ctx.section(check_alignment_options, ctx, tree)
     ctx.section(check_kinematic_domain, ctx, tree)
     ctx.section(check_sympairs, ctx, tree)
     ctx.section(check_xstore, ctx, tree)
